@@ -1,7 +1,7 @@
 #!/bin/bash
 # usage: tools/trymut.sh <patch.diff> <ID> [ID...]   — applies a seeded change to /repo, runs the quick checks, always reverts.
 set -u
-patch="$1"; shift
+patch="$(readlink -f "$1")"; shift
 cd /repo || exit 2
 if [ -n "$(git status --porcelain -- src Cargo.toml)" ]; then echo "repo not clean"; exit 2; fi
 git apply "$patch" || { echo "patch does not apply"; exit 2; }
